@@ -27,6 +27,14 @@ def build(t, nice_only=False, kinds=("continuous", "slotted"), holds=False, chol
         prod = [0 if (i % 3) else PW[pw[i % len(pw)] % len(PW)] for i in range(n)]
     else:            # irregular
         prod = [PW[pw[i % len(pw)] % len(PW)] for i in range(n)]
+    if pm >= 2 and pw[0] % 3 == 0 and n >= 2:
+        # an exact tie: one admission request falls into the very instant the first item reaches the exit
+        travel = (conv["L"] / conv["v"]) if kind == "continuous" else conv["capacity"] * conv["delay"]
+        j = 1 + pw[1] % min(3, n - 1)
+        rest = travel - sum(prod[1:j])
+        if rest > 0:
+            prod = list(prod)
+            prod[j] = rest
     cm = cmode % 5
     if cm == 0:      # always waiting: free flow
         cons = [0] * n
